@@ -126,9 +126,10 @@ theorem exec_shrinks (v : Variant) (s : St) (t : Nat) (i : Instr) (rest : List I
   case cancelConts c r =>
     simp only [exec]
     refine shrinks_of s _ t ?_ (fun d => ?_) (fun u hu => ?_) (fun d => ?_)
-    · rw [setProg_pending, (foldl_setCont2_eq _ _ _).2.1]
-    · rw [setProg_cmd, (foldl_setCont2_eq _ _ _).1]; exact ⟨rfl, rfl⟩
-    · rw [setProg_prog, if_neg hu, (foldl_setCont2_eq _ _ _).2.2]
+    · rw [setProg_pending, updCmd_pending, (foldl_setCont2_eq _ _ _).2.1]
+    · simp only [setProg_cmd, updCmd_cmd, (foldl_setCont2_eq _ _ _).1]
+      split <;> exact ⟨rfl, rfl⟩
+    · rw [setProg_prog, if_neg hu, updCmd_prog, (foldl_setCont2_eq _ _ _).2.2]
     · rw [setProg_prog, if_pos rfl]; exact hrest d
   case cancelOrphans ks =>
     simp only [exec]
@@ -256,7 +257,8 @@ theorem once_register {v : Variant} {s : St} (h : Once s) (t c : Nat) (rest : Li
   split
   · exact h
   · rename_i hr
-    have hr' : (s.cmd c).registered = false := by simpa using hr
+    have hr' : (s.cmd c).registered = false := by
+      simp only [Bool.or_eq_true, not_or, Bool.not_eq_true] at hr; exact hr.2
     obtain ⟨u1, u2, u3⟩ := h.unreg c hr'
     have htoks : ∀ d u, toks d (if u = t then rest else s.prog u) ≤ toks d (s.prog u) := by
       intro d u
@@ -437,13 +439,12 @@ theorem once_delByTag {v : Variant} {s : St} (h : Once s) (t tag : Nat) (rep : R
 theorem once_idleGo {v : Variant} {s : St} (h : Once s) (t c : Nat) (rest : List Instr)
     (hs : s.prog t = .idleGo c :: rest) : Once (exec v s t (.idleGo c) rest) := by
   simp only [exec]
+  split
+  · exact h
   refine once_of_shrinks h ⟨rfl, fun _ => rfl, fun _ => rfl, fun d u => ?_⟩
   simp only [setProg_prog]
   split
-  · rename_i hu
-    rw [toks_append, hu]
-    have : toks d [Instr.idleRunSel c, Instr.idleDoneW c, Instr.idleRunClose c] = 0 := rfl
-    rw [this]; exact Nat.le_refl _
+  · exact Nat.zero_le _
   · split
     · rename_i hu; rw [hu, hs, toks_cons]; exact Nat.le_add_right _ _
     · exact Nat.le_refl _
@@ -509,20 +510,24 @@ theorem once_step (v : Variant) (s : St) (t : Nat) (h : Once s) : Once (step v s
   split
   · exact h
   · split
-    · exact once_skipCaps h _
+    · split
+      · exact once_skipCaps h _
+      · exact h
     · split
       · exact h
-      · rename_i i rest hs
-        cases hi : special i
-        · exact once_of_shrinks h (exec_shrinks v s t i rest hs hi)
-        · cases i <;> simp [special] at hi
-          · exact once_register h t _ rest hs
-          · exact once_idleGo h t _ rest hs
-          · exact once_closeSwap h t rest hs
-          · exact once_loadDone h t _ _ rest hs
-          · exact once_send h t _ _ _ rest hs
-          · exact once_delByTag h t _ _ _ rest hs
-          · exact once_srv h t _ rest hs
+      · split
+        · exact h
+        · rename_i i rest hs
+          cases hi : special i
+          · exact once_of_shrinks h (exec_shrinks v s t i rest hs hi)
+          · cases i <;> simp [special] at hi
+            · exact once_register h t _ rest hs
+            · exact once_idleGo h t _ rest hs
+            · exact once_closeSwap h t rest hs
+            · exact once_loadDone h t _ _ rest hs
+            · exact once_send h t _ _ _ rest hs
+            · exact once_delByTag h t _ _ _ rest hs
+            · exact once_srv h t _ rest hs
 
 theorem once_run (v : Variant) (sched : List Nat) (s : St) (h : Once s) : Once (run v s sched) := by
   induction sched generalizing s with
